@@ -133,11 +133,15 @@ func vRawSpec(f *vFile) *cdi.Spec {
 type vFileInfo struct {
 	name string
 	dir  bool
+	link bool
 }
 
 func (i *vFileInfo) Name() string { return i.name }
 func (i *vFileInfo) Size() int64  { return 0 }
 func (i *vFileInfo) Mode() fs.FileMode {
+	if i.link {
+		return fs.ModeSymlink | 0o777
+	}
 	if i.dir {
 		return fs.ModeDir | 0o755
 	}
@@ -166,12 +170,30 @@ func stubFsLstat(name string) (fs.FileInfo, error) {
 		if base == "sub" {
 			return &vFileInfo{name: base, dir: true}, nil
 		}
+		for _, f := range d.files {
+			if f.name == base && (f.state == vFileDangle || f.state == vFileVanish) {
+				return &vFileInfo{name: base, link: true}, nil
+			}
+		}
 		return &vFileInfo{name: base}, nil
 	}
 	if filepath.Base(dir) == "sub" {
 		return &vFileInfo{name: base}, nil
 	}
 	return nil, vPathErr("lstat", os.ErrNotExist)
+}
+
+// os.Stat follows links: a dangling link does not exist
+func stubFsStat(name string) (fs.FileInfo, error) {
+	m := vfs
+	if d := m.dirByPath(filepath.Dir(name)); d != nil {
+		for _, f := range d.files {
+			if f.name == filepath.Base(name) && (f.state == vFileDangle || f.state == vFileVanish) {
+				return nil, vPathErr("stat", os.ErrNotExist)
+			}
+		}
+	}
+	return stubFsLstat(name)
 }
 
 var vENOTDIR = vNewErr("not a directory")
